@@ -10,6 +10,8 @@ import (
 	"flag"
 	"fmt"
 	"os"
+	"runtime/debug"
+	"runtime/pprof"
 	"syscall"
 	"time"
 
@@ -49,8 +51,23 @@ func main() {
 		}
 		return
 	}
+	if hp := os.Getenv("VERIF_HEAPPROF"); hp != "" {
+		// debugging aid: heap profile of a replay / worker after 15 s
+		go func() {
+			time.Sleep(15 * time.Second)
+			f, err := os.Create(hp)
+			if err == nil {
+				pprof.WriteHeapProfile(f)
+				f.Close()
+			}
+		}()
+	}
 	if *replay != "" {
 		syscall.Setrlimit(syscall.RLIMIT_AS, &syscall.Rlimit{Cur: *mem, Max: *mem})
+		// soft limit for the collector: 16 workers whose garbage is collected late
+		// would otherwise exhaust the machine (the library allocates what a tampered
+		// length prefix asks for, up to 2 GiB at a time, before reading)
+		debug.SetMemoryLimit(int64(*mem) / 4)
 		b, err := os.ReadFile(*replay)
 		if err != nil {
 			fmt.Println("HARNESS-ERROR", err)
@@ -118,6 +135,10 @@ func main() {
 	}
 	if *isWorker {
 		syscall.Setrlimit(syscall.RLIMIT_AS, &syscall.Rlimit{Cur: *mem, Max: *mem})
+		// soft limit for the collector: 16 workers whose garbage is collected late
+		// would otherwise exhaust the machine (the library allocates what a tampered
+		// length prefix asks for, up to 2 GiB at a time, before reading)
+		debug.SetMemoryLimit(int64(*mem) / 4)
 		var s, n int
 		fmt.Sscanf(*shard, "%d/%d", &s, &n)
 		engine.RunWorker(p, *tier, *variant, s, n, *out, time.Duration(*budget)*time.Second, *bound)
